@@ -420,7 +420,14 @@ def header_data_agreement(ctx, rule_id):
     def lists_in(t):
         if t[0] == "phi":
             return [y for x in t[1] for y in lists_in(x)]
+        if t[0] == "ifexp":
+            return lists_in(t[2]) + lists_in(t[3])
         return [t] if t[0] == "list" else []
+
+    def parts(t):
+        """concat_parts with *x items of displays turned into splices"""
+        return [("splice", x[1]) if k == "item" and x[0] == "star"
+                else (k, x) for k, x in concat_parts(t)]
 
     headers, metas = [], []
     for n in ast.walk(g.node):
@@ -464,17 +471,24 @@ def header_data_agreement(ctx, rule_id):
             moved = a[1][1]
         else:
             base = a
-    ok_shape = base is not None and (moved is None or moved == base) and \
-        base[0] == "bin" and base[1] == "+" and base[3][0] == "list" and \
-        base[2][0] == "comp" and len(base[2][3]) == 1
+    ok_shape = base is not None and (moved is None or moved == base)
+    tail = []
     if ok_shape:
-        names, it, conds = base[2][3][0]
-        ok_shape = (base[2][2] == ("elem", it) and conds == (
-            ("cmp", "!=", ("elem", it), ("attr", SELF, "_target_column")),))
+        ps = parts(base)
+        ok_shape = len(ps) >= 1 and ps[0][0] == "splice" and \
+            ps[0][1][0] == "comp" and len(ps[0][1][3]) == 1 and all(
+                k == "item" for k, _x in ps[1:])
+        if ok_shape:
+            comp = ps[0][1]
+            names, it, conds = comp[3][0]
+            ok_shape = (comp[2] == ("elem", it) and conds == (
+                ("cmp", "!=", ("elem", it),
+                 ("attr", SELF, "_target_column")),))
+            tail = [x for _k, x in ps[1:]]
     ctx.require(ok_shape, f"{w.qual}: derivation of the output column order "
                 f"not recognised: {show(out, 200)}")
     D = [r for r in M if r != ("attr", "target_column")] + [
-        role(x) for x in base[3][1]]
+        role(x) for x in tail]
     prot = [r for r in D if r[0] == "name" and "protein" in r[1]]
     if moved is not None and len(prot) == 1:
         D = [r for r in D if r != prot[0]] + prot
